@@ -178,3 +178,264 @@ def run_wild(pid, seed, n, res):
                     {'ops': ops[:i + 1], 'impl': [st['err'], st['out'], st['obs']], 'generated': [go['err'], go['out'], go['obs']]}))
                 break
             prev = a[2]
+
+# ---------------------------------------------------------------------------------------------------------------------
+# round two (notes/NOTES_genexec2.md): graph GENERATION by the generated code (driver op `gen_generate`: generated
+# `lg__generate_graph` + `model_add_*` / `model__from_dict` + `graph___init__` in the environment `PyW.evalEnvOf`)
+def generate_payload(i, lang, inst, **kw):
+    return dict({'op': 'gen_generate', 'case': i, 'lang': lang, 'inst': inst}, **kw)
+
+def _gen_nodes(gg):
+    """the node list of a `gen_generate` answer in the form of `genrun.graph_obs` (defense as float)"""
+    keys = ('id', 'full_name', 'asset', 'name', 'type', 'ttc', 'tags', 'mitre', 'defense', 'exist')
+    return [{k: (n[k] if k != 'defense' or n[k] is None else float(n[k])) for k in keys} for n in gg['nodes']]
+
+def generate_cmp(g: dict, im: dict, edges: str = 'exact') -> tuple:
+    """`g` = `model` part of a `gen_generate` answer, `im` = observation of the real `AttackGraph` (`genrun.graph_obs`, or
+    `{'error': class}`).  Returns (problem | None, drift) — problem: error class, node list (exact: order, ids, every attribute)
+    or edge SET differs; drift: names of the order / multiplicity differences of the children / parents lists (`edges='exact'`
+    turns these into a problem too)."""
+    from .genrun import ERRMAP
+    if 'error' in g or 'error' in im:
+        ge, ie = g.get('error'), im.get('error')
+        ge = ERRMAP.get(ge, ge)
+        if ie is not None: ie = ie.split(':')[0]          # (`impl_generate` appends the message to a class it does not know)
+        return (None if ge == ie else f'on the outcome: generated code {ge or "returns"}, implementation {ie or "returns"}'), []
+    gg = g['graph']
+    gn = _gen_nodes(gg)
+    if gn != im['nodes']:
+        k = next((i for i, (a, b) in enumerate(zip(gn, im['nodes'])) if a != b), min(len(gn), len(im['nodes'])))
+        return f'on the node list (first difference at position {k}: generated {gn[k] if k < len(gn) else None}, implementation {im["nodes"][k] if k < len(im["nodes"]) else None})', []
+    drift = []
+    for key in ('edges', 'parent_edges'):
+        a, b = [tuple(e) for e in gg[key]], [tuple(e) for e in im.get(key, im['edges'])]
+        if a == b: continue
+        if set(a) != set(b):
+            return f'on the {"child" if key == "edges" else "parent"} relation: generated only {sorted(set(a) - set(b))[:4]}, implementation only {sorted(set(b) - set(a))[:4]}', []
+        drift.append(key + (':multiplicity' if sorted(a) != sorted(b) else ':order'))
+    if drift and edges == 'exact':
+        return f'on the order / multiplicity of the children / parents lists ({", ".join(drift)})', drift
+    return None, drift
+
+MAX_EDGES = 4000
+def generate_column(pid: str, res, items: list, edges: str, lookups: bool = False) -> list:
+    """The third column of the generation checks, run AFTER the real code: `items` = [(spec, inst, im, extra)] for the cases
+    the check found nothing wrong with (`im` = observation of the real graph or `{'error': ..}`, `extra` = further payload
+    fields such as lookup keys `ids` / `names`, and under `_lookups` the answers of the real graph, `_replay` more replay data).
+    Cases whose real graph has more than MAX_EDGES list entries are left out (an asset on both sides of one association object
+    multiplies the entries of the children lists — 32 912 for 11 nodes in one C02 case —; the generated code builds them all,
+    but every heap update of the compiled closure heap costs a walk over the earlier ones: 40 s against 0.7 s of CPython)."""
+    from .langgen import lang_payload, inst_payload
+    todo = []
+    for it in items:
+        if 'error' not in it[2] and len(it[2]['edges']) > MAX_EDGES: res.bump('generated_code_skipped:graph-too-large')
+        else: todo.append(it)
+    lp = {}
+    out = run_driver([generate_payload(k, lp.setdefault(id(s), lang_payload(s)), inst_payload(m),
+                                       **{a: b for a, b in x.items() if not a.startswith('_')}) for k, (s, m, im, x) in enumerate(todo)])
+    vs = []
+    for (spec, inst, im, x), o in zip(todo, out):
+        rep = dict({'spec': spec, 'inst': inst}, **x.get('_replay', {}))
+        if 'error' in o:
+            vs.append(driver_error(pid, o['error'], rep)); continue
+        g = o['model']
+        prob, dr = generate_cmp(g, im, edges=edges)
+        res.bump('generated_code_graphs_compared')
+        if 'graph' in g:
+            res.bump('generated_code_nodes_compared', len(g['graph']['nodes'])); res.bump('generated_code_edges_compared', len(g['graph']['edges']))
+        else: res.bump('generated_code_errors_compared')
+        for d in dr: res.bump('generated_code_drift:' + d)
+        op = '_generate_graph'
+        if not prob and lookups and 'graph' in g:
+            gg = g['graph']
+            res.bump('generated_code_lookups_compared', len(x['ids']) + len(x['names']))
+            if g.get('lookups') != x['_lookups']:
+                prob, op = 'on get_node_by_id / get_node_by_full_name of the generated graph', 'get_node_by'
+            elif [e[0] for e in gg['idIdx']] != [n['id'] for n in gg['nodes']] or [e[0] for e in gg['nameIdx']] != [n['full_name'] for n in gg['nodes']] \
+                    or gg['next'][0] != len(gg['nodes']):
+                prob = 'on the indexes of the graph (generated code: keys of _id_to_node / _full_name_to_node, next_node_id)'
+        if prob:
+            vs.append(divergence(pid, op, prob, dict(rep, impl=im, impl_lookups=x.get('_lookups'), generated=g)))
+    return vs
+
+def generate_measure(cases: list, edges: str = 'set') -> dict:
+    """seeded-defect experiment (tools/genexec_seeded.py) for the generation checks: `cases` = [(spec, inst, churn_seed | None,
+    member_p)]; implementation (possibly mutated) vs hand model (`gen`) vs regenerated code (`gen_generate`)"""
+    import random
+    from .langgen import lang_payload, inst_payload
+    from .genrun import impl_generate, model_nodes_canon
+    st = {'cases': 0, 'impl_ne_hand': 0, 'gen_follows_impl': 0, 'gen_ne_impl': 0, 'impl_crash': 0, 'skipped_large': 0, 'examples': []}
+    ims, names0 = [], {}
+    for i, (s, m, cs, mp) in enumerate(cases):
+        # the names the objects are constructed with (`None`, duplicates): the (mutated) model chooses the final names, which
+        # `impl_generate` writes back into `m`; the hand model is asked about the final names, the generated `add_asset` renames itself
+        if any(a['name'] is None for a in m['assets']) or len({a['name'] for a in m['assets']}) < len(m['assets']):
+            names0[i] = [a['name'] for a in m['assets']]
+        try: ims.append(impl_generate(s, m, churn=None if cs is None else random.Random(cs), member_p=mp))
+        except BaseException as e: ims.append({'crash': type(e).__name__})
+        for a in m['assets']:
+            if a['name'] is None: a['name'] = f"{a['type']}:{a['id']}"
+    hand = run_driver([{'op': 'gen', 'case': i, 'lang': lang_payload(s), 'inst': inst_payload(m)} for i, (s, m, _, _) in enumerate(cases)])
+    todo = [i for i, im in enumerate(ims) if 'crash' not in im and ('error' in im or len(im['edges']) <= MAX_EDGES)]
+    gen = dict(zip(todo, run_driver([generate_payload(i, lang_payload(cases[i][0]), inst_payload(cases[i][1]),
+                                                      **({'names0': names0[i]} if i in names0 else {})) for i in todo])))
+    for i, (s, m, cs, mp) in enumerate(cases):
+        st['cases'] += 1
+        im = ims[i]
+        if 'crash' in im: st['impl_crash'] += 1; st['examples'].append(['impl-crash', im['crash']]); continue
+        if i not in gen: st['skipped_large'] += 1; continue
+        if 'error' in hand[i] or 'error' in gen[i]:
+            st['examples'].append(['driver-error', [hand[i].get('error'), gen[i].get('error')]]); continue
+        mo, g = hand[i]['model'], gen[i]['model']
+        if 'error' in mo or 'error' in im: hsame = mo.get('error') == im.get('error')
+        else:
+            hsame = model_nodes_canon(mo['nodes']) == im['nodes'] and set(map(tuple, mo['edges'])) == set(map(tuple, im['edges'])) \
+                    and set(map(tuple, im['edges'])) == set(map(tuple, im.get('parent_edges', im['edges'])))
+            # (the hand model lists every edge once per link; the multiplicities of the real lists - which the generated code
+            # reproduces - are not part of C01 / C02 and are not compared on this side)
+        # the oracle of C02 on the names: full names pairwise distinct (the hand model is asked about the names the - possibly
+        # mutated - model chose, so a naming defect shows only here)
+        if 'error' not in im and len({n['full_name'] for n in im['nodes']}) < len(im['nodes']): hsame = False
+        prob, _ = generate_cmp(g, im, edges=edges)
+        if prob:
+            st['gen_ne_impl'] += 1; st['examples'].append(['gen!=impl', {'spec': s, 'inst': m, 'churn_seed': cs, 'what': prob}])
+        if not hsame:
+            st['impl_ne_hand'] += 1
+            if not prob:
+                st['gen_follows_impl'] += 1
+                st['examples'].append(['gen=impl!=hand', {'impl_error': im.get('error'), 'hand_error': mo.get('error'),
+                                                          'n_edges': [len(im.get('edges', [])), len(mo.get('edges', []))]}])
+    return st
+# genexec2 / serialisers (notes/NOTES_genexec2_serial.md): the DOCUMENTS of the generated `_to_dict` functions against the
+# dictionaries the real `_to_dict()` returns, key order included.  Lean's `Json` sorts object keys, so the driver renders a
+# Python value ordered: dictionary = ["d", [[key, value], ...]] (int keys as numbers, str keys as strings), list =
+# ["l", [...]], a `ttc` dictionary = ["t", [[key, text], ...]] (`PyDictS`: the value under `name` is the string, any other
+# value its JSON text), a non-empty `extras` dictionary = ["j", canonical JSON text].
+class _Extras(dict):
+    """an `extras` dictionary of the generated side: kept as canonical JSON text there (`.text`), so the order of its keys
+    (and of the keys of nested dictionaries) carries no information - compared through the canonical text of the real one"""
+
+class _Rec(dict):
+    """a dictionary with a fixed key set of the generated side (a record of the prelude): the order of ITS keys is not
+    represented by the translation - compared as a set of items (the values again with order)"""
+
+class _BadFloat:
+    def __init__(self, t): self.t = t
+    def __repr__(self): return f'<float text {self.t!r} is not canonical>'
+
+def ag_doc_decode(j):
+    """ordered rendering of the driver -> Python value (dictionaries in the order of the generated document)"""
+    if isinstance(j, list):
+        tag = j[0]
+        if tag == 'd': return {k: ag_doc_decode(v) for k, v in j[1]}
+        if tag == 'r': return _Rec((k, ag_doc_decode(v)) for k, v in j[1])
+        if tag == 'f':
+            try: return float(j[1]) if repr(float(j[1])) == j[1] else _BadFloat(j[1])
+            except ValueError: return _BadFloat(j[1])
+        if tag == 'l': return [ag_doc_decode(v) for v in j[1]]
+        if tag == 't': return {k: (v if k == 'name' else json.loads(v)) for k, v in j[1]}
+        if tag == 'j':
+            e = _Extras(json.loads(j[1])); e.text = j[1]
+            return e
+        raise ValueError(f'bad ordered rendering {j!r:.80}')
+    return j
+
+def ag_doc_encode(doc):
+    """a REAL attack-graph document (what `_to_dict()` returned / the file layer loaded) in the ordered rendering, for the
+    generated `_from_dict` (driver op `gen_ag_fromdict`)"""
+    from .langgen import jtxt
+    def atom(k, v):
+        if isinstance(v, dict):
+            if k == 'ttc': return ['t', [[a, b if (a == 'name' and isinstance(b, str)) else json.dumps(b, separators=(',', ':'))] for a, b in v.items()]]
+            if k == 'extras' and v: return ['j', jtxt(v)]
+            return ['d', [[a, b] for a, b in v.items()]]
+        if isinstance(v, list): return ['l', list(v)]
+        return v
+    return ['d', [[top, ['d', [[name, ['d', [[k, atom(k, v)] for k, v in entry.items()]]] for name, entry in entries.items()]]]
+                  for top, entries in doc.items()]]
+
+def doc_same(real, gen, ordered=True, relax=()) -> bool:
+    """the generated document is the real one: same keys IN THE SAME ORDER (`ordered`), keys and scalars of the same Python
+    type (1, 1.0, True, '1' are four different things), lists element by element.  Below a key listed in `relax`, and inside
+    an `extras` value of the generated side, dictionaries are compared without order."""
+    if isinstance(gen, _Extras):
+        # the convention of the heaps: an `extras` dictionary IS its canonical JSON text (`langgen.jtxt`: sorted keys, keys that
+        # are not strings tagged, `1` / `1.0` / `true` distinct)
+        from .langgen import jtxt
+        return isinstance(real, dict) and jtxt(real) == gen.text
+    if isinstance(real, dict):
+        if not isinstance(gen, dict) or len(real) != len(gen): return False
+        kr, kg = list(real), list(gen)
+        if ordered and not isinstance(gen, _Rec):
+            if any(type(a) is not type(b) or a != b for a, b in zip(kr, kg)): return False
+        elif {(type(a), a) for a in kr} != {(type(b), b) for b in kg}: return False
+        return all(doc_same(real[k], gen[k], ordered and k not in relax, relax) for k in kr)
+    if isinstance(real, (list, tuple)):
+        return isinstance(gen, (list, tuple)) and len(real) == len(gen) and all(doc_same(a, b, ordered, relax) for a, b in zip(real, gen))
+    return type(real) is type(gen) and real == gen
+
+def doc_first_difference(real, gen, path='') -> str:
+    """where two documents differ first (for the replay file)"""
+    if isinstance(real, dict) and isinstance(gen, dict):
+        if isinstance(gen, (_Rec, _Extras)) and {(type(k).__name__, k) for k in real} == {(type(k).__name__, k) for k in gen}:
+            gen = {k: gen[k] for k in real}
+        if [(type(k).__name__, k) for k in real] != [(type(k).__name__, k) for k in gen]:
+            return f'{path}: keys {list(real)!r:.160} (impl) vs {list(gen)!r:.160} (generated)'
+        for k in real:
+            d = doc_first_difference(real[k], gen[k], f'{path}/{k}')
+            if d: return d
+        return ''
+    if isinstance(real, list) and isinstance(gen, list) and len(real) == len(gen):
+        for i, (a, b) in enumerate(zip(real, gen)):
+            d = doc_first_difference(a, b, f'{path}[{i}]')
+            if d: return d
+        return ''
+    return '' if (type(real) is type(gen) and real == gen) else f'{path}: {real!r:.120} (impl) vs {gen!r:.120} (generated)'
+
+def ag_doc_compare(real, gen_rendered, res=None, ttc_touched=True):
+    """-> None when the generated `_to_dict` document is the real one, else a description of the first difference.  The
+    order of the keys INSIDE a `ttc` value is compared too; where only that differs it is counted and accepted (the heap of
+    the generated side is built from the canonical `ttc` text of the operation: after the harness wrote `ttc['touched']`
+    the real dictionary has the new key last, the canonical text has it in sorted position - glue, not translation;
+    `ttc_touched`: the history contains such a write - otherwise the inner order must agree too)."""
+    if isinstance(gen_rendered, dict) and 'error' in gen_rendered:
+        return 'the generated _to_dict raises ' + str(gen_rendered['error'])
+    gen = ag_doc_decode(gen_rendered)
+    if doc_same(real, gen): return None
+    if ttc_touched and doc_same(real, gen, relax=('ttc',)):
+        if res is not None: res.bump('generated_code_documents_ttc_inner_key_order_differs(glue)')
+        return None
+    return doc_first_difference(real, gen) or 'documents differ (order inside extras / ttc)'
+
+def ag_exact_obs(o):
+    """an observation of `Impl.obs` / `obsH` with the `ttc` texts normalised, list orders KEPT"""
+    if o is None: return None
+    c = dict(o); c['nodes'] = [list(n) for n in o['nodes']]
+    for n in c['nodes']:
+        if len(n) > 7 and n[7][2] != 'null':
+            n[7] = list(n[7]); n[7][2] = _ttc(n[7][2])
+    return c
+
+def m_doc_encode(x, key=None):
+    """a REAL instance-model document (what `Model._to_dict()` returned / the file layer loaded / a hand-edited one) in the
+    ordered rendering, for the generated `Model._from_dict` (driver op `gen_load_doc`): dictionaries with their key order and
+    key types, an `extras` dictionary as canonical JSON text, floats as their canonical text; a number under `defenses` is
+    what `float(...)` makes of it (the call `_from_dict` applies to it)"""
+    from .langgen import jtxt
+    if isinstance(x, dict):
+        if key == 'extras': return ['j', jtxt(x)]
+        if key == 'defenses':
+            return ['d', [[k, ['f', repr(float(v))] if isinstance(v, (int, float)) and not isinstance(v, bool) else m_doc_encode(v)] for k, v in x.items()]]
+        return ['d', [[k, m_doc_encode(v, k)] for k, v in x.items()]]
+    if isinstance(x, (list, tuple)): return ['l', [m_doc_encode(v) for v in x]]
+    if isinstance(x, float): return ['f', repr(x)]
+    return x
+
+def m_doc_compare(real, gen_rendered):
+    """-> None when the generated `Model._to_dict` document is the real one (key order of every dictionary whose keys are
+    computed; key SET of the fixed-key dictionaries; key and value types), else where they differ first"""
+    if isinstance(gen_rendered, dict) and 'error' in gen_rendered:
+        return 'the generated _to_dict raises ' + str(gen_rendered['error'])
+    gen = ag_doc_decode(gen_rendered)
+    if doc_same(real, gen): return None
+    return doc_first_difference(real, gen) or 'documents differ (inside extras)'
